@@ -33,7 +33,7 @@ class Interner:
 
 
 def body_key(spec, n):
-    return (bool(n.get("lam")), n["kind"], n["name"], n["const"], n["setconst"], n["tupconst"], n["nested"], n.get("sset"), n.get("pair"), n.get("shadow"), bool(n.get("objdefault")), n["default"] is not None,
+    return (bool(n.get("lam")), n["kind"], n["name"], n["const"], n["setconst"], n["tupconst"], n["nested"], n.get("sset"), n.get("pair"), n.get("gstr"), n.get("shadow"), bool(n.get("objdefault")), n["default"] is not None,
             n["kwdefault"] is not None, tuple(sorted(map(tuple, n["refs"]))), n["hidden"])
 
 
@@ -93,7 +93,7 @@ def honour_pins(old, new):
 
 def make_history(rng, n_edits, concat_scenario=False):
     spec = vprog.gen_spec(rng, n_m=rng.randint(2, 4), n_p=rng.randint(1, 3), n_v=rng.randint(1, 3), p_hidden=0.12, p_explicit=0.2, allow_cycles=False,
-                          pkg2=rng.random() < 0.4, lambdas=rng.random() < 0.4)
+                          pkg2=rng.random() < 0.4, lambdas=rng.random() < 0.4, twins=True)
     eds, descs = [spec], ["initial"]
     for _ in range(n_edits):
         nxt, d = vprog.edit(rng, eds[-1])
@@ -172,6 +172,25 @@ def builtin_shadow_history():
     return [mk(False), mk(True)], ["initial", "define a plain function named round (a builtin until then), on its own"]
 
 
+def genexpr_twin_history():
+    """string literals that are the first constant of a generator expression's code object (in a memento function and in
+    a plain helper), and two modules that each own a variable called SCALE, each read by a function of its own module"""
+    def fn(name, kind, module, const, refs=(), gstr=None):
+        return {"name": name, "kind": kind, "module": module, "const": const, "default": None, "kwdefault": None, "setconst": None, "tupconst": None,
+                "sset": None, "pair": None, "nested": None, "explicit": None, "hidden": None, "shadow": None, "gstr": gstr, "refs": [list(r) for r in refs]}
+
+    def mk(ga, gb, t0, t1):
+        return {"pkg": "vpk", "nodes": [{"name": "T0", "kind": "v", "module": "a", "vkind": "int", "value": t0, "sym": "SCALE"},
+                                        {"name": "T1", "kind": "v", "module": "b", "vkind": "int", "value": t1, "sym": "SCALE"},
+                                        fn("h0", "p", "b", 4, [("T1", "bare")], gstr=gb),
+                                        fn("m0", "m", "a", 10, [("T0", "bare"), ("h0", "attr")], gstr=ga),
+                                        fn("m1", "m", "b", 20, [("T1", "bare")]),
+                                        fn("m2", "m", "a", 30, [("m1", "attr"), ("T0", "bare")])]}
+    return ([mk("id:", "k", 2, 12), mk("id::", "k", 2, 12), mk("id::", "key", 2, 12), mk("id::", "key", 3, 12), mk("id::", "key", 3, 14), mk("id::", "key", 14, 3)],
+            ["initial", "string literal inside a generator expression of m0", "string literal inside a generator expression of h0",
+             "value of variable T0 (a.SCALE)", "value of variable T1 (b.SCALE)", "values of a.SCALE and b.SCALE exchanged"])
+
+
 def calls_of(spec):
     return [[m, x] for m in vprog.mnames(spec) if vprog.node(spec, m)["explicit"] is None for x in (1, 2)]
 
@@ -188,7 +207,7 @@ def run(tier, seed):
     terms, metas = [], []
     with C.Scratch("c01") as scratch:
         jobs = []
-        for hi in range(n_hist + 4):
+        for hi in range(n_hist + 5):
             if hi == n_hist:
                 eds, descs = concat_history()
             elif hi == n_hist + 1:
@@ -197,6 +216,8 @@ def run(tier, seed):
                 eds, descs = shadow_history()
             elif hi == n_hist + 3:
                 eds, descs = builtin_shadow_history()
+            elif hi == n_hist + 4:
+                eds, descs = genexpr_twin_history()
             else:
                 eds, descs = make_history(rng, rng.randint(2, 4) if tier == "quick" else rng.randint(2, 6))
             jobs.append((hi, eds, descs, rng.choice(["reload", "exec"]), str(rng.randint(0, 100000))))
@@ -231,7 +252,7 @@ def run(tier, seed):
                         newly_defined = [n for n in others if n["kind"] == "p" and vprog.node(prev, n["name"])["kind"] == "u"]
                         if changed_vars and not others:
                             ed["files"] = {}
-                            ed["setattrs"] = [[n["module"], n["name"], n["value"]] for n in changed_vars]
+                            ed["setattrs"] = [[n["module"], vprog.sym(n), n["value"]] for n in changed_vars]
                         elif others and len(newly_defined) == len(others) and not changed_vars:
                             # only new definitions of names that were undefined: executed on their own, nothing else re-run
                             ed["files"] = {}
